@@ -37,7 +37,9 @@ def py_traces(expr):
         for a, v in zip(atoms, vals):
             env[a] = (lambda a=a, v=v: (trace.append(a), SS() if v == "S" else (lambda *xs: xs[0]) if v == "F" else v)[1])
         env["add3"] = lambda x, y, z: (trace.append("add3"), x + y + z)[1]
-        env["array"] = lambda *xs: list(xs)
+        class ML(list):
+            def __getitem__(self, i): return list.__getitem__(self, i % len(self))
+        env["array"] = lambda *xs: ML(xs)
         env["use_b"] = env["use_n"] = lambda x: None
         eval(expr, env)
         out.add(tuple(trace))
@@ -45,7 +47,7 @@ def py_traces(expr):
 
 import ast as _ast
 
-def model_traces(expr, lift, reflect):
+def model_traces(expr, lift, reflect, subidx=False):
     """Evaluation traces under the KNOWN deviations of guppylang 0.21 (used only to recognise the
     recorded findings; with lift=reflect=False this is Python's semantics):
       lift     short-circuit / conditional sub-expressions in operand position are built into
@@ -131,6 +133,9 @@ def model_traces(expr, lift, reflect):
             if isinstance(n, _ast.IfExp): return ev(n.body) if ev(n.test) else ev(n.orelse)
             if isinstance(n, _ast.Tuple): return tuple(ev(e) for e in n.elts)
             if isinstance(n, _ast.Subscript):
+                if subidx and not isinstance(n.slice, _ast.Constant):
+                    # recorded deviation: the index of a subscript on an rvalue is compiled first
+                    i = ev(n.slice); v = ev(n.value); return v[i % len(v)]
                 v = ev(n.value); i = ev(n.slice); return v[i % len(v)]
             raise RuntimeError("model: " + type(n).__name__)
         full(tree)
@@ -155,8 +160,14 @@ def hugr_traces(hugr, fname):
         if not isinstance(hugr[b].op, ops.DataflowBlock): return ()
         kids = list(hugr.children(b))
         for k in kids:
-            if not isinstance(hugr[k].op, (ops.Input, ops.Output, ops.Call, ops.Const, ops.LoadConst, ops.LoadFunc, ops.Tag, ops.MakeTuple, ops.UnpackTuple, ops.ExtOp, ops.Custom, ops.Noop)):
-                raise RuntimeError("container inside block: " + type(hugr[k].op).__name__)
+            # nested regions are fine as long as no call happens inside them (e.g. the Conditional
+            # that converts a bool into a branch tag)
+            stack = list(hugr.children(k))
+            while stack:
+                d = stack.pop()
+                if isinstance(hugr[d].op, (ops.Call, ops.CallIndirect)):
+                    raise RuntimeError("call inside a nested region: " + type(hugr[k].op).__name__)
+                stack += list(hugr.children(d))
         calls = [k for k in kids if isinstance(hugr[k].op, ops.Call)]
         # order edges: port offset -1
         nxt = {}
@@ -218,7 +229,7 @@ def judge(kind, ex, res, i):
     except ValueError as e:
         return f"side effects are not totally ordered: {e}"
     except RuntimeError as e:
-        return None          # shape outside the oracle (nested containers)
+        return "SKIP:" + str(e)          # shape outside the oracle (nested containers)
     # calls to library functions (e.g. int.__pow__) are not the side effects being tracked
     strip = lambda t: tuple(x for x in t if x == "add3" or (len(x) == 2 and x[0] in "bnsp" and x[1].isdigit()))
     got = {strip(t) for t in got}
@@ -229,8 +240,9 @@ def judge(kind, ex, res, i):
         extra, missing = sorted(got - want)[:3], sorted(want - got)[:3]
         msg = f"call sequences differ from Python's evaluation traces: HUGR-only {extra}, Python-only {missing}"
         # recognise the two recorded deviations exactly (anything else is a new violation)
-        for kid, (lf, rf) in (("lift", (True, False)), ("reflect", (False, True)), ("lift+reflect", (True, True))):
-            if got == model_traces(ex, lf, rf):
+        for lf, rf, sf in sorted(itertools.product((False, True), repeat=3), key=sum):
+            if (lf or rf or sf) and got == model_traces(ex, lf, rf, sf):
+                kid = "+".join(n for n, f in (("lift", lf), ("reflect", rf), ("subscript", sf)) if f)
                 return "KNOWN:" + kid + ":" + msg
         return msg
     return None
@@ -273,7 +285,8 @@ def exprs(tier):
             "array(n0(), n1(), n2())[n3()]", "n0() if b0() and b1() else n1()", "n0() + (n1() if b0() else n2())", "-n0() + n1()",
             "add3(n0(), n1(), n2()) + n3()", "n0() + s0()", "(n0() if b0() else n1()) + (n2() if b1() else n3())",
             "n0() + (1 if n1() < n2() < n3() else 2)", "add3(n0(), 1 if b0() or b1() else 2, n1())", "n0() - n1() - n2()", "n0() ** 2 + n1()",
-            "p0()(n0())", "p1()(n0(), n1())", "p0()(n0()) + n1()", "add3(n0(), p0()(n1()), n2())", "n0() + p1()(n1(), n2())"]
+            "p0()(n0())", "p1()(n0(), n1())", "p0()(n0()) + n1()", "add3(n0(), p0()(n1()), n2())", "n0() + p1()(n1(), n2())",
+            "array(n0(), n1())[n2()] + n3()", "(n0(), n1())[0] + n2()", "n0() + array(n1(), n2())[0]"]
     out += [("n", e) for e in ints]
     out += [("b", e) for e in ["n0() + n1() < n2() * n3()", "b0() and n0() < n1() < n2()", "n0() < n1() < n2() or b0()", "not (n0() < n1() <= n2() < n3())",
                                "(n0() < n1()) == (n2() < n3())", "b0() if n0() < n1() < n2() else b1()", "n0() in array(n1(), n2())" ]]
@@ -284,7 +297,7 @@ DRIVER = r'''
 I_ = INPUT
 all_ = exprs(I_["tier"])
 mine = list(enumerate(all_))[I_["chunk"]::I_["nchunks"]]
-bad = None; judged = 0; rejected = 0
+bad = None; judged = 0; rejected = 0; skipped = []
 known = I_.get("known", [])
 knownhits = {}
 B = 120
@@ -293,8 +306,10 @@ for off in range(0, len(mine), B):
     res = compile_all([e for _, e in batch])
     for j, ((gi, (kind, ex)), r) in enumerate(zip(batch, res)):
         if r[0] == "rejected": rejected += 1; continue
-        judged += 1
         msg = judge(kind, ex, r, j)
+        if msg is not None and msg.startswith("SKIP:"):
+            skipped.append(ex); continue
+        judged += 1
         if msg is None: continue
         if msg.startswith("KNOWN:"):
             _, kid, rest = msg.split(":", 2)
@@ -302,12 +317,13 @@ for off in range(0, len(mine), B):
                 knownhits.setdefault(k, {"expr": ex, "detail": rest})
             continue
         if bad is None: bad = {"expr": ex, "kind": kind, "detail": msg}
-print(json.dumps({"violates": bad is not None, "evaluations": judged, "rejected": rejected, "total": len(all_), "witness": bad, "detail": bad and bad["detail"], "known": knownhits}))
+print(json.dumps({"violates": bad is not None, "evaluations": judged, "rejected": rejected, "total": len(all_), "witness": bad, "detail": bad and bad["detail"], "known": knownhits, "skipped": skipped}))
 '''
 
 REPLAY_ONE = r'''
 I_ = INPUT
 r = compile_all([(I_["kind"], I_["expr"])])[0]
 msg = judge(I_["kind"], I_["expr"], r, 0)
-print(json.dumps({"violates": msg is not None, "detail": msg, "expr": I_["expr"], "python_traces": sorted(py_traces(I_["expr"]))[:6]}))
+if msg is not None and msg.startswith("SKIP:"): msg = None
+print(json.dumps({"violates": msg is not None,"detail": msg, "expr": I_["expr"], "python_traces": sorted(py_traces(I_["expr"]))[:6]}))
 '''
